@@ -43,6 +43,10 @@ type rulesRunner struct {
 	filename string
 	src      []byte
 
+	// commentPartText maps the nodes created by commentPart for the comment
+	// that is being matched to the comment text they stand for.
+	commentPartText map[*ast.Comment]string
+
 	// nodePath is a stack of ast.Nodes we visited to this point.
 	// When we enter a new node, it's placed on the top of the stack.
 	// When we leave that node, it's popped.
@@ -141,6 +145,12 @@ func (rr *rulesRunner) nodeText(n ast.Node) []byte {
 		return nil
 	}
 
+	if comment, ok := n.(*ast.Comment); ok {
+		if text, ok := rr.commentPartText[comment]; ok {
+			return []byte(text)
+		}
+	}
+
 	from := rr.ctx.Fset.Position(n.Pos()).Offset
 	to := rr.ctx.Fset.Position(n.End()).Offset
 	src := rr.fileBytes()
@@ -213,6 +223,10 @@ func (rr *rulesRunner) runCommentRules(comment *ast.Comment) {
 	// We'll need that file to create a token.Pos from the artificial offset.
 	file := rr.ctx.Fset.File(comment.Pos())
 
+	for part := range rr.commentPartText {
+		delete(rr.commentPartText, part)
+	}
+
 	for _, rule := range rr.rules.universal.commentRules {
 		var m matchData
 		if rule.captureGroups {
@@ -233,32 +247,23 @@ func (rr *rulesRunner) runCommentRules(comment *ast.Comment) {
 				if beginPos < 0 || endPos < 0 {
 					m.match.Capture = append(m.match.Capture, gogrep.CapturedNode{
 						Name: name,
-						Node: &ast.Comment{Slash: comment.Pos()},
+						Node: rr.commentPart(file, comment, 0, 0),
 					})
 					continue
 				}
 				m.match.Capture = append(m.match.Capture, gogrep.CapturedNode{
 					Name: name,
-					Node: &ast.Comment{
-						Slash: file.Pos(beginPos + file.Offset(comment.Pos())),
-						Text:  comment.Text[beginPos:endPos],
-					},
+					Node: rr.commentPart(file, comment, beginPos, endPos),
 				})
 			}
-			m.match.Node = &ast.Comment{
-				Slash: file.Pos(result[0] + file.Offset(comment.Pos())),
-				Text:  comment.Text[result[0]:result[1]],
-			}
+			m.match.Node = rr.commentPart(file, comment, result[0], result[1])
 		} else {
 			// Fast path: no need to save any submatches.
 			result := rule.pat.FindStringIndex(comment.Text)
 			if result == nil {
 				continue
 			}
-			m.match.Node = &ast.Comment{
-				Slash: file.Pos(result[0] + file.Offset(comment.Pos())),
-				Text:  comment.Text[result[0]:result[1]],
-			}
+			m.match.Node = rr.commentPart(file, comment, result[0], result[1])
 		}
 
 		accept := rr.handleCommentMatch(rule, m)
@@ -266,6 +271,52 @@ func (rr *rulesRunner) runCommentRules(comment *ast.Comment) {
 			break
 		}
 	}
+}
+
+// commentPart returns a node for comment.Text[begin:end].
+//
+// go/scanner removes carriage returns from the comment text, so in a file
+// with CRLF line endings the text can be shorter than the source it stands for.
+// The node always covers the source bytes; the text it stands for is
+// remembered in rr.commentPartText (see nodeText).
+func (rr *rulesRunner) commentPart(file *token.File, comment *ast.Comment, begin, end int) *ast.Comment {
+	text := comment.Text[begin:end]
+	from, to := commentTextSpan(rr.fileBytes(), file.Offset(comment.Pos()), comment.Text, begin, end)
+	part := &ast.Comment{Slash: file.Pos(from), Text: text}
+	if to-from != len(text) {
+		part.Text = string(rr.src[from:to])
+	}
+	if rr.commentPartText == nil {
+		rr.commentPartText = make(map[*ast.Comment]string)
+	}
+	rr.commentPartText[part] = text
+	return part
+}
+
+// commentTextSpan returns the src offsets that text[begin:end] occupies,
+// where text is the text of a comment that starts at the src offset base.
+//
+// The text may lack some of the carriage returns that src has (see commentPart).
+// If src is not the source that text comes from (or there is no source at all),
+// the text is treated as an exact copy of the source.
+func commentTextSpan(src []byte, base int, text string, begin, end int) (from, to int) {
+	pos := base
+	for i := 0; i < end; i++ {
+		for pos < len(src) && src[pos] == '\r' && text[i] != '\r' {
+			pos++
+		}
+		if pos >= len(src) || src[pos] != text[i] {
+			return base + begin, base + end
+		}
+		if i == begin {
+			from = pos
+		}
+		pos++
+	}
+	if begin == end {
+		from = pos
+	}
+	return from, pos
 }
 
 func (rr *rulesRunner) runRules(n ast.Node, tag nodetag.Value) {
